@@ -17,7 +17,7 @@ operations on Individual objects use the direction-aware order exactly once: max
 best-first, `>` for better-than, with no further dependence on the direction (a reverse= computed from maximize is a double
 application) and no min()/ascending sort; (R13.4) Individual.__lt__/__eq__ delegate to problem.worse_than/equivalent with
 (self, other) in that order; (R13.5) both call sites that hand an objective to scipy agree on sign adaptation; (R13.6) values
-obtained from a sign-adapted optimiser are converted back with the same sign before being stored as fitness. (R13.7) only NaN tests precede the switch of worse_than and no operand is replaced by a fixed signed stand-in; (R13.8) a direction kept or lazily cached in an object is the problem's own; (R13.9) the index-stable engines select in the same order in both directions; (R13.10) no inherited fixed infinite sentinel; (R13.11) comparison operands are not shifted by a fixed-sign amount."""
+obtained from a sign-adapted optimiser are converted back with the same sign before being stored as fitness. (R13.7) only NaN tests precede the switch of worse_than and no operand is replaced by a fixed signed stand-in; (R13.8) a direction kept or lazily cached in an object is the problem's own; (R13.9) the index-stable engines select in the same order in both directions; (R13.10) no inherited fixed infinite sentinel; (R13.11) comparison operands are not shifted by a fixed-sign amount. (R13.12) no fixed position is read out of a top-k population outside a maximize switch; a direction resolved once in a constructor from a direction-named parameter is followed to every construction site (R13.8); the value of a sign-adapted objective reported by an optimiser is not handed to worse_than / equivalent (R13.11); an argsort used as a whole permutation selects nothing."""
 NOTE = """The whole-run identity of twin runs on (f, max) and (-f, min) is not decided (it quantifies over executions); only that every
 decision is taken through a direction-symmetric construct. FitnessSteadiness (mean minus minimum of raw values) and the
 multiwinner utility are documented exceptions named in the property. cma and scipy minimise what they are given (external summary)."""
